@@ -87,9 +87,47 @@ pub fn run(ctx: &mut Ctx) {
             a
         };
         ctx.count(["pair:identical", "pair:random-vs-pure", "pair:one-infoset-differs", "pair:disjoint-supports", "pair:random"][kind], 1);
-        let (Ok(sa), Ok(sb)) = (bridge::inject(&game, &flat, &a), bridge::inject(&game, &flat, &b)) else {
+        let (Ok(sa_plain), Ok(sb)) = (bridge::inject(&game, &flat, &a), bridge::inject(&game, &flat, &b)) else {
             ctx.inconclusive("from_named-rejected-valid-profile(see C14)");
             return;
+        };
+        // a third of the cases: profile a is imported from a listing in which infosets are split
+        // over several entries (legal: no restriction on order or repetition; the entries of one
+        // infoset are merged). It is the same profile, so it must behave the same.
+        let sa = if rng.chance(0.33) {
+            let [one, two] = crate::tree::profile_to_named(&flat, &a);
+            let mut split = |named: crate::tree::Named| -> crate::tree::Named {
+                let mut out: crate::tree::Named = Vec::new();
+                for (info, acts) in named {
+                    if acts.len() >= 2 && rng.chance(0.6) {
+                        let cut = rng.range(1, acts.len() - 1);
+                        out.push((info.clone(), acts[..cut].to_vec()));
+                        out.push((info, acts[cut..].to_vec()));
+                    } else {
+                        out.push((info, acts));
+                    }
+                }
+                rng.shuffle(&mut out);
+                out
+            };
+            let (s1, s2) = (split(one), split(two));
+            match game.from_named([s1, s2]) {
+                Ok(s) => {
+                    ctx.count("profile-a-imported-from-a-listing-with-split-infosets", 1);
+                    let d = catch(|| s.distance(&sa_plain, 1.0));
+                    if !matches!(d, Ok([x, y]) if x == 0.0 && y == 0.0) {
+                        ctx.violation(idx, "C19:distance:split-import-differs-from-merged-import", &format!("distance between one profile imported from a listing with split infosets and from the merged listing is {:?}, expected [0, 0] on {}", d, desc), json!({"game": tree.to_json(), "a": a}));
+                        return;
+                    }
+                    s
+                }
+                Err(_) => {
+                    ctx.inconclusive("from_named-rejected-split-listing(see C14)");
+                    return;
+                }
+            }
+        } else {
+            sa_plain
         };
         for &p in &ps {
             let r = catch(|| (sa.distance(&sb, p), sb.distance(&sa, p), sa.distance(&sa, p)));
@@ -162,7 +200,7 @@ pub fn run(ctx: &mut Ctx) {
         }
     });
     ctx.finish(crate::report::extra(
-        "cases = (game, profile pair, exponent): G1/G2 games incl. games where a player has no multi-action infoset x pairs {identical, random vs pure, one infoset differs, disjoint supports, random} x p in {1e-3,0.3,0.5,1,1.5,2,10,1e3}. Laws checked per player component: not NaN, within [0,1], distance(a,a)=0, zero when the player's strategies coincide, positive when they differ by >=1e-3 somewhere (p<=10; larger p is don't-care because |d|^p underflows), symmetric. Every fourth case also probes the documented panics: p in {0,-1,NaN,-inf,-0} and two separately built copies of the same tree. distinct = hash(tree, both profiles, p); non-trivial = some player has a multi-action infoset.",
+        "cases = (game, profile pair, exponent): G1/G2 games incl. games where a player has no multi-action infoset x (a third of the cases: profile a imported from a listing whose infosets are split over several entries; it must be at distance 0 from its merged import) x pairs {identical, random vs pure, one infoset differs, disjoint supports, random} x p in {1e-3,0.3,0.5,1,1.5,2,10,1e3}. Laws checked per player component: not NaN, within [0,1], distance(a,a)=0, zero when the player's strategies coincide, positive when they differ by >=1e-3 somewhere (p<=10; larger p is don't-care because |d|^p underflows), symmetric. Every fourth case also probes the documented panics: p in {0,-1,NaN,-inf,-0} and two separately built copies of the same tree. distinct = hash(tree, both profiles, p); non-trivial = some player has a multi-action infoset.",
         &["NaN is treated as 'not positive' for the exponent"],
     ));
 }
